@@ -3,6 +3,14 @@
 // envelopes, or byte-mutated, crossed with descriptors / blobs, required metadata and levels.
 // The abstract facts of an envelope (parses, integrity, payload type, decoded payload) are
 // computed by an independent route: notation-core-go and encoding/json called directly.
+//
+// Two further dimensions have their own generators:
+//   - the registry entry point notation.Verify with repositories whose Resolve answers with
+//     something else than the reference names (another manifest, a digest of another algorithm,
+//     the same digest with another size / media type, the zero descriptor, an error), for digest
+//     and tag references (registryDimension);
+//   - required-metadata maps and signed annotations whose keys and values contain separators,
+//     are empty, or are re-splittings / concatenations of one another (metadataDimension).
 package c01
 
 import (
@@ -14,6 +22,7 @@ import (
 	"fmt"
 	"io"
 	"sort"
+	"strings"
 	"testing/iotest"
 	"time"
 
@@ -48,10 +57,13 @@ type Input struct {
 	Artifact      Desc        `json:"artifact"`
 	HashSupported bool        `json:"hashSupported"`
 	Required      [][2]string `json:"required"`
+	ViaRegistry   bool        `json:"viaRegistry"` // oci: through notation.Verify and a repository listing this one signature
+	RefDigest     *string     `json:"refDigest"`   // registry: the digest the reference pins; null = a tag reference
+	ResolveOk     bool        `json:"resolveOk"`   // registry: Repository.Resolve answers with a descriptor (Artifact), not an error
 	// concretisation only (ignored by the model, theorem concretisation_irrelevant):
-	Reader      string `json:"reader"`      // blob: how the reader delivers the bytes ("bytes", "dataEOF", "oneByte", "half", "chunksEOF")
-	ViaRegistry bool   `json:"viaRegistry"` // oci: through notation.Verify and a repository listing this one signature
-	Plugin      bool   `json:"plugin"`      // the signature names an installed verification plugin that owns the identity check and approves
+	Reader  string `json:"reader"`  // blob: how the reader delivers the bytes ("bytes", "dataEOF", "oneByte", "half", "chunksEOF")
+	Plugin  bool   `json:"plugin"`  // the signature names an installed verification plugin that owns the identity check and approves
+	RefForm string `json:"refForm"` // registry: the repository part of the reference as spelled by the caller
 }
 
 type Obs struct {
@@ -101,16 +113,23 @@ type world struct {
 	blob         []byte
 	blobDesc     ocispec.Descriptor
 	art          ocispec.Descriptor
+	manifest     []byte // the content art.Digest is the sha256 digest of
 }
+
+// the content of ANOTHER artifact (its sha256 digest is the signed target of the "digest" variant)
+var otherContent = []byte("another artifact")
+
+const ociMediaType = "application/vnd.oci.image.manifest.v1+json"
 
 func newWorld() *world {
 	nb := time.Now().Add(-48 * time.Hour)
 	w := &world{
-		chain: common.MakeChain(common.ChainOpts{Tag: "c01", RootNB: nb, LeafNB: nb}),
-		other: common.MakeChain(common.ChainOpts{Tag: "c01 other", RootNB: nb, LeafNB: nb}),
-		blob:  []byte("the blob under verification, c01"),
+		chain:    common.MakeChain(common.ChainOpts{Tag: "c01", RootNB: nb, LeafNB: nb}),
+		other:    common.MakeChain(common.ChainOpts{Tag: "c01 other", RootNB: nb, LeafNB: nb}),
+		blob:     []byte("the blob under verification, c01"),
+		manifest: []byte("c01 artifact"),
 	}
-	w.art = ocispec.Descriptor{MediaType: "application/vnd.oci.image.manifest.v1+json", Digest: digest.FromString("c01 artifact"), Size: 528,
+	w.art = ocispec.Descriptor{MediaType: ociMediaType, Digest: digest.FromBytes(w.manifest), Size: 528,
 		Annotations: map[string]string{"org.example.build": "42", "org.example.team": "core"}}
 	w.blobDesc = ocispec.Descriptor{MediaType: "application/octet-stream", Digest: digest.FromBytes(w.blob), Size: int64(len(w.blob)),
 		Annotations: map[string]string{"org.example.build": "42", "org.example.team": "core"}}
@@ -128,12 +147,34 @@ type envCase struct {
 
 func rawPayload(target string) []byte { return []byte(`{"targetArtifact":` + target + `}`) }
 
-// variants of the signed target relative to the base descriptor d
-func targetVariants(d ocispec.Descriptor) map[string]ocispec.Descriptor {
+// sameHexAs: the hexadecimal part of d under another algorithm's name (not a well-formed digest of that
+// algorithm: a repository or a signer can write anything into a descriptor)
+func sameHexAs(d digest.Digest, alg string) digest.Digest {
+	return digest.Digest(alg + ":" + d.Encoded())
+}
+
+// variants of the signed target relative to the base descriptor d, whose digest is the sha256 digest of content
+func targetVariants(d ocispec.Descriptor, content []byte) map[string]ocispec.Descriptor {
 	v := map[string]ocispec.Descriptor{"exact": d}
 	x := d
-	x.Digest = digest.FromString("another artifact")
+	x.Digest = digest.FromBytes(otherContent)
 	v["digest"] = x
+	// the same content / the other content named by a digest of another algorithm, and the same
+	// hexadecimal text under another algorithm's name
+	for _, alg := range []digest.Algorithm{digest.SHA384, digest.SHA512} {
+		x = d
+		x.Digest = alg.FromBytes(content)
+		v["same-content-"+alg.String()] = x
+		x = d
+		x.Digest = alg.FromBytes(otherContent)
+		v["other-content-"+alg.String()] = x
+	}
+	x = d
+	x.Digest = sameHexAs(d.Digest, "sha512")
+	v["same-hex-as-sha512"] = x
+	x = d
+	x.Digest = ""
+	v["empty-digest"] = x
 	x = d
 	x.Size = d.Size + 1
 	v["size"] = x
@@ -141,7 +182,7 @@ func targetVariants(d ocispec.Descriptor) map[string]ocispec.Descriptor {
 	x.MediaType = "application/vnd.oci.image.index.v1+json"
 	v["mediaType"] = x
 	x = d
-	x.Digest, x.Size = digest.FromString("another artifact"), d.Size+7
+	x.Digest, x.Size = digest.FromBytes(otherContent), d.Size+7
 	v["digest+size"] = x
 	x = d
 	x.Size, x.MediaType = d.Size-1, "application/vnd.docker.distribution.manifest.v2+json"
@@ -185,10 +226,10 @@ func artifactVariants(d ocispec.Descriptor) []ocispec.Descriptor {
 }
 
 // envelopes builds the envelope pool for a base descriptor.
-func (w *world) envelopes(c *common.Ctx, d ocispec.Descriptor) []envCase {
+func (w *world) envelopes(c *common.Ctx, d ocispec.Descriptor, content []byte) []envCase {
 	var out []envCase
 	var fresh = map[string][]byte{}
-	for name, t := range targetVariants(d) {
+	for name, t := range targetVariants(d, content) {
 		t := t
 		for _, f := range []string{common.MediaJWS, common.MediaCOSE} {
 			b := common.MustSign(common.EnvOpts{Format: f, Chain: w.chain, Target: &t})
@@ -270,7 +311,7 @@ func (w *world) envelopes(c *common.Ctx, d ocispec.Descriptor) []envCase {
 	// the same kinds of envelopes carrying the critical verification-plugin attribute: with an installed
 	// plugin that approves, everything about the payload must be checked all the same
 	pattrs := []signature.Attribute{{Key: verifier.HeaderVerificationPlugin, Critical: true, Value: c01Plugin}}
-	for name, t := range targetVariants(d) {
+	for name, t := range targetVariants(d, content) {
 		t := t
 		if name != "exact" && name != "digest" && name != "size" {
 			continue
@@ -433,27 +474,71 @@ func payloadOf(o *notation.VerificationOutcome) *Desc {
 	return &d
 }
 
-// oneSigRepo: a repository that resolves to the artifact and lists exactly one signature
-type oneSigRepo struct {
-	artifact ocispec.Descriptor
-	sig      []byte
-	format   string
+// regCase: one way of going through the registry entry point notation.Verify
+type regCase struct {
+	refDigest string             // the digest the reference pins; "" = a tag reference
+	form      string             // the repository part of the reference
+	answer    ocispec.Descriptor // what Repository.Resolve answers with ...
+	fail      bool               // ... unless it answers with an error
+	label     string             // for the histogram
 }
 
-func (r *oneSigRepo) Resolve(ctx context.Context, reference string) (ocispec.Descriptor, error) {
-	return r.artifact, nil
+const (
+	plainRepo = "reg.example/c01"
+	tagName   = "v1"
+)
+
+// honest: the reference pins the digest of the descriptor, and the repository resolves it to that descriptor
+func honest(artifact ocispec.Descriptor) *regCase {
+	return &regCase{refDigest: artifact.Digest.String(), form: plainRepo, answer: artifact, label: "honest"}
 }
-func (r *oneSigRepo) ListSignatures(ctx context.Context, desc ocispec.Descriptor, fn func([]ocispec.Descriptor) error) error {
+
+func (r *regCase) reference() string {
+	if r.refDigest == "" {
+		return r.form + ":" + tagName
+	}
+	return r.form + "@" + r.refDigest
+}
+
+// scriptedRepo: a registry.Repository (mirror, pull-through cache, OCI layout, compromised registry) that
+// resolves EVERY reference to one scripted answer and lists exactly one signature for whatever it is asked about
+type scriptedRepo struct {
+	reg    *regCase
+	sig    []byte
+	format string
+}
+
+func (r *scriptedRepo) Resolve(ctx context.Context, reference string) (ocispec.Descriptor, error) {
+	if r.reg.fail {
+		return ocispec.Descriptor{}, errors.New("c01: the repository does not know this reference")
+	}
+	return r.reg.answer, nil
+}
+func (r *scriptedRepo) ListSignatures(ctx context.Context, desc ocispec.Descriptor, fn func([]ocispec.Descriptor) error) error {
 	return fn([]ocispec.Descriptor{{MediaType: ocispec.MediaTypeImageManifest, Digest: digest.FromBytes(r.sig), Size: int64(len(r.sig))}})
 }
-func (r *oneSigRepo) FetchSignatureBlob(ctx context.Context, desc ocispec.Descriptor) ([]byte, ocispec.Descriptor, error) {
+func (r *scriptedRepo) FetchSignatureBlob(ctx context.Context, desc ocispec.Descriptor) ([]byte, ocispec.Descriptor, error) {
 	return r.sig, ocispec.Descriptor{MediaType: r.format, Digest: digest.FromBytes(r.sig), Size: int64(len(r.sig))}, nil
 }
-func (r *oneSigRepo) PushSignature(ctx context.Context, mediaType string, blob []byte, subject ocispec.Descriptor, annotations map[string]string) (a, b ocispec.Descriptor, err error) {
+func (r *scriptedRepo) PushSignature(ctx context.Context, mediaType string, blob []byte, subject ocispec.Descriptor, annotations map[string]string) (a, b ocispec.Descriptor, err error) {
 	return
 }
 
-func runOCI(w *world, e envCase, lv levelCase, artifact ocispec.Descriptor, req [][2]string, viaRegistry bool) (Input, Obs) {
+// callerVerifier: a caller's own notation.Verifier in front of the library's, used for TAG references: the
+// library's verifier has no trust policy for a reference without '@', so this one selects the policy by a fixed
+// digest reference of the same repository; it does not answer SkipVerify, so notation.Verify resolves first
+type callerVerifier struct {
+	inner     notation.Verifier
+	policyRef string
+}
+
+func (v callerVerifier) Verify(ctx context.Context, desc ocispec.Descriptor, sig []byte, opts notation.VerifierVerifyOptions) (*notation.VerificationOutcome, error) {
+	opts.ArtifactReference = v.policyRef
+	return v.inner.Verify(ctx, desc, sig, opts)
+}
+
+// runOCI: verifier.Verify for the descriptor `artifact` (reg == nil), or notation.Verify through the repository of reg
+func runOCI(w *world, e envCase, lv levelCase, artifact ocispec.Descriptor, req [][2]string, reg *regCase) (Input, Obs) {
 	store := common.NewMemStore()
 	if lv.trusted {
 		store.Certs["ca:c01"] = []*x509.Certificate{w.chain.Root().Cert}
@@ -482,12 +567,39 @@ func runOCI(w *world, e envCase, lv levelCase, artifact ocispec.Descriptor, req 
 	for _, kv := range req {
 		um[kv[0]] = kv[1]
 	}
-	vopts := notation.VerifierVerifyOptions{ArtifactReference: "reg.example/c01@" + artifact.Digest.String(), SignatureMediaType: e.format, UserMetadata: um}
-	if viaRegistry {
-		// the registry entry point: the same requirements must reach the verifier
-		_, outcomes, rerr := notation.Verify(context.Background(), v, &oneSigRepo{artifact: artifact, sig: e.bytes, format: e.format},
-			notation.VerifyOptions{ArtifactReference: vopts.ArtifactReference, MaxSignatureAttempts: 3, UserMetadata: um})
-		in := Input{Kind: "oci", Skip: lv.skip, Rest: lv.rest(e.signer), Artifact: toDesc(artifact), HashSupported: true, Required: req, Reader: "", Plugin: e.plugin, ViaRegistry: true}
+	vopts := notation.VerifierVerifyOptions{ArtifactReference: plainRepo + "@" + artifact.Digest.String(), SignatureMediaType: e.format, UserMetadata: um}
+	if reg != nil {
+		// the registry entry point: the same requirements must reach the verifier, for the artifact the
+		// reference names
+		var nv notation.Verifier = v
+		if reg.refDigest == "" {
+			nv = callerVerifier{inner: v, policyRef: plainRepo + "@" + w.art.Digest.String()}
+		}
+		repo := &scriptedRepo{reg: reg, sig: e.bytes, format: e.format}
+		var desc ocispec.Descriptor
+		var outcomes []*notation.VerificationOutcome
+		var rerr error
+		panicked := false
+		func() {
+			// a repository may answer with any descriptor: a panic is observed (as a failure without outcome, which
+			// the model never predicts), not allowed to end the run
+			defer func() {
+				if r := recover(); r != nil {
+					panicked, rerr = true, fmt.Errorf("panic: %v", r)
+				}
+			}()
+			desc, outcomes, rerr = notation.Verify(context.Background(), nv, repo,
+				notation.VerifyOptions{ArtifactReference: reg.reference(), MaxSignatureAttempts: 3, UserMetadata: um})
+		}()
+		in := Input{Kind: "oci", Skip: lv.skip, Rest: lv.rest(e.signer), HashSupported: true, Required: req, Reader: "", Plugin: e.plugin,
+			ViaRegistry: true, ResolveOk: !reg.fail, RefForm: reg.form}
+		if reg.refDigest != "" {
+			d := reg.refDigest
+			in.RefDigest = &d
+		}
+		if !reg.fail {
+			in.Artifact = toDesc(reg.answer)
+		}
 		in.ParseOk, in.IntegrityOk, in.PayloadTypeOk, in.Decoded, _ = facts(e.bytes, e.format)
 		in.Artifact.Annotations = [][2]string{}
 		o := Obs{Accepted: rerr == nil}
@@ -497,9 +609,15 @@ func runOCI(w *world, e envCase, lv levelCase, artifact ocispec.Descriptor, req 
 			b := outcomes[0].Error != nil
 			o.OutcomeError = &b
 			o.Payload = payloadOf(outcomes[0])
+			d := toDesc(desc)
+			d.Annotations = [][2]string{}
+			o.Returned = &d
 		}
 		if len(um) != len(req) {
 			o.Accepted = !o.Accepted // the caller's map was modified: flagged
+		}
+		if panicked {
+			o.OutcomeError = nil
 		}
 		return in, o
 	}
@@ -510,7 +628,7 @@ func runOCI(w *world, e envCase, lv levelCase, artifact ocispec.Descriptor, req 
 	if (verr2 == nil) != (verr == nil) || len(um) != len(req) || (outcome2 == nil) != (outcome == nil) {
 		verr, outcome = nil, &notation.VerificationOutcome{Error: errors.New("not repeatable")} // inconsistent on purpose: flagged
 	}
-	in := Input{Kind: "oci", Skip: lv.skip, Rest: lv.rest(e.signer), Artifact: toDesc(artifact), HashSupported: true, Required: req, Reader: "", Plugin: e.plugin}
+	in := Input{Kind: "oci", Skip: lv.skip, Rest: lv.rest(e.signer), Artifact: toDesc(artifact), HashSupported: true, Required: req, Reader: "", Plugin: e.plugin, ResolveOk: true}
 	in.ParseOk, in.IntegrityOk, in.PayloadTypeOk, in.Decoded, _ = facts(e.bytes, e.format)
 	in.Artifact.Annotations = [][2]string{}
 	o := Obs{Accepted: verr == nil}
@@ -569,7 +687,7 @@ func runBlob(w *world, e envCase, lv levelCase, blob []byte, mediaType string, r
 	// the blob descriptor as the generator computes it: the hash is bound to the signature algorithm;
 	// all keys of this harness are P-256 (SHA-256)
 	art := Desc{MediaType: mediaType, Digest: string(digest.FromBytes(blob)), Size: int64(len(blob)), Annotations: [][2]string{}}
-	in := Input{Kind: "blob", Skip: lv.skip, Rest: lv.rest(e.signer), Artifact: art, HashSupported: true, Required: req, Reader: reader, Plugin: e.plugin}
+	in := Input{Kind: "blob", Skip: lv.skip, Rest: lv.rest(e.signer), Artifact: art, HashSupported: true, Required: req, Reader: reader, Plugin: e.plugin, ResolveOk: true}
 	in.ParseOk, in.IntegrityOk, in.PayloadTypeOk, in.Decoded, _ = facts(e.bytes, e.format)
 	o := Obs{Accepted: verr == nil}
 	if rec.outcome != nil {
@@ -587,6 +705,318 @@ func runBlob(w *world, e envCase, lv levelCase, blob []byte, mediaType string, r
 	return in, o
 }
 
+var refForms = []string{plainRepo, "localhost:5000/c01", "reg.example/team/c01"}
+
+// registryDimension: notation.Verify with repositories whose Resolve answers with something else than the
+// reference names, for digest references of three algorithms, a digest reference to the other manifest, and a
+// tag reference; crossed with envelopes signed for each of the possible answers.
+func (w *world) registryDimension(c *common.Ctx, envs []envCase, lvs []levelCase, emit func(envCase, Input, Obs)) {
+	with := func(d ocispec.Descriptor, f func(*ocispec.Descriptor)) ocispec.Descriptor {
+		f(&d)
+		return d
+	}
+	A := w.art
+	type answer struct {
+		label string
+		desc  ocispec.Descriptor
+		fail  bool
+	}
+	answers := []answer{{"artifact", A, false}}
+	type ref struct{ label, digest string }
+	refs := []ref{{"tag", ""}, {"sha256", A.Digest.String()}}
+	for _, alg := range []digest.Algorithm{digest.SHA384, digest.SHA512} {
+		alg := alg
+		answers = append(answers, answer{"artifact-" + alg.String(), with(A, func(d *ocispec.Descriptor) { d.Digest = alg.FromBytes(w.manifest) }), false})
+		answers = append(answers, answer{"other-manifest-" + alg.String(), with(A, func(d *ocispec.Descriptor) { d.Digest = alg.FromBytes(otherContent) }), false})
+		refs = append(refs, ref{alg.String(), alg.FromBytes(w.manifest).String()})
+	}
+	refs = append(refs, ref{"other-manifest-sha256", digest.FromBytes(otherContent).String()})
+	answers = append(answers,
+		answer{"other-manifest-sha256", with(A, func(d *ocispec.Descriptor) { d.Digest = digest.FromBytes(otherContent) }), false},
+		answer{"same-hex-as-sha512", with(A, func(d *ocispec.Descriptor) { d.Digest = sameHexAs(A.Digest, "sha512") }), false},
+		answer{"artifact-other-size", with(A, func(d *ocispec.Descriptor) { d.Size++ }), false},
+		answer{"artifact-other-mediaType", with(A, func(d *ocispec.Descriptor) { d.MediaType = "application/vnd.oci.image.index.v1+json" }), false},
+		answer{"other-manifest-other-size", with(A, func(d *ocispec.Descriptor) { d.Digest, d.Size = digest.FromBytes(otherContent), d.Size+7 }), false},
+		answer{"empty-digest", with(A, func(d *ocispec.Descriptor) { d.Digest = "" }), false},
+		answer{"zero", ocispec.Descriptor{}, false},
+		answer{"error", ocispec.Descriptor{}, true})
+	// envelopes signed for each of these answers (and the usual ways of being no good)
+	want := map[string]bool{"fresh/exact": true, "fresh/digest": true, "fresh/size": true, "fresh/mediaType": true, "fresh/digest+size": true,
+		"fresh/same-content-sha384": true, "fresh/same-content-sha512": true, "fresh/other-content-sha384": true, "fresh/other-content-sha512": true,
+		"fresh/same-hex-as-sha512": true, "fresh/empty-digest": true, "payload/null-target": true, "fresh/other-signer": true,
+		"reassembled/payload-of-exact": true, "plugin/fresh/exact": true, "plugin/fresh/digest": true, "content-type/application/json": true}
+	quick := map[string]bool{"strict/trusted": true, "strict/untrusted": true, "permissive/trusted": true, "audit/untrusted": true,
+		"strict+all-log/untrusted": true, "skip": true}
+	k := 0
+	for _, e := range envs {
+		if !want[e.label] {
+			continue
+		}
+		for _, lv := range lvs {
+			if !c.Thorough() && !quick[lv.name] {
+				continue
+			}
+			_, _, _, signedFor, _ := facts(e.bytes, e.format)
+			for _, r := range refs {
+				for _, a := range answers {
+					// quick tier: always the combinations in which the envelope is signed for exactly what the
+					// repository answers with (the candidates for acceptance; for a failing Resolve the zero descriptor it
+					// returns next to the error), a sample of the others
+					candidate := signedFor != nil && signedFor.Digest == string(a.desc.Digest) && signedFor.Size == a.desc.Size && signedFor.MediaType == a.desc.MediaType
+					if !c.Thorough() && !candidate && c.Rand.Intn(100) >= 35 {
+						continue
+					}
+					k++
+					reqs := []string{"none"}
+					if c.Thorough() || k%3 == 0 {
+						reqs = append(reqs, "subset")
+					}
+					for _, rn := range reqs {
+						reg := &regCase{refDigest: r.digest, form: refForms[c.Rand.Intn(len(refForms))], answer: a.desc, fail: a.fail}
+						in, o := runOCI(w, e, lv, w.art, requiredMaps[rn], reg)
+						emit(e, in, o)
+						c.Count("registry: reference=" + r.label + " resolve=" + a.label)
+						c.Count(fmt.Sprintf("registry: accepted=%v", o.Accepted))
+					}
+				}
+			}
+		}
+	}
+}
+
+// ---- required metadata: keys and values with separators, empty, re-split, concatenated ----
+
+type reqCase struct {
+	label string
+	pairs [][2]string // unique keys
+}
+
+var metaSeparators = []string{"=", ":", "", " ", ",", ";", "/", "|", "\t", "\n", "==", "\""}
+
+// resplits: every pair (k', v') with k'+sep+v' == k+sep+v
+func resplits(k, v, sep string) [][2]string {
+	s := k + sep + v
+	var out [][2]string
+	if sep == "" {
+		for j := 0; j <= len(s); j++ {
+			out = append(out, [2]string{s[:j], s[j:]})
+		}
+		return out
+	}
+	for j := 0; j+len(sep) <= len(s); j++ {
+		if strings.HasPrefix(s[j:], sep) {
+			out = append(out, [2]string{s[:j], s[j+len(sep):]})
+		}
+	}
+	return out
+}
+
+func sortedKeys(m map[string]string) []string {
+	keys := make([]string, 0, len(m))
+	for k := range m {
+		keys = append(keys, k)
+	}
+	sort.Strings(keys)
+	return keys
+}
+
+// derivedRequired: required-metadata maps derived systematically from the signed annotations: the signed pairs,
+// and every way of confusing them - re-splitting key<sep>value at another place for a dozen separators (incl.
+// none), swapping, emptying, changing case or white space, truncating, and joining two signed pairs into one
+func derivedRequired(signed map[string]string, thorough bool) []reqCase {
+	var out []reqCase
+	seen := map[string]bool{}
+	add := func(label string, pairs ...[2]string) {
+		m := map[string]string{}
+		for _, p := range pairs {
+			if old, dup := m[p[0]]; dup && old != p[1] {
+				return // not a map
+			}
+			m[p[0]] = p[1]
+		}
+		ps := [][2]string{}
+		for _, k := range sortedKeys(m) {
+			ps = append(ps, [2]string{k, m[k]})
+		}
+		id, _ := json.Marshal(ps)
+		if seen[string(id)] {
+			return
+		}
+		seen[string(id)] = true
+		out = append(out, reqCase{label, ps})
+	}
+	keys := sortedKeys(signed)
+	var all [][2]string
+	for _, k := range keys {
+		all = append(all, [2]string{k, signed[k]})
+		add("signed-pair", [2]string{k, signed[k]})
+	}
+	add("signed-all", all...)
+	for _, k := range keys {
+		v := signed[k]
+		for _, sep := range metaSeparators {
+			for _, p := range resplits(k, v, sep) {
+				add(fmt.Sprintf("resplit sep=%q", sep), p)
+				if sep == "=" || sep == "" {
+					// next to a pair that IS signed
+					for _, k2 := range keys {
+						if k2 != k {
+							add(fmt.Sprintf("resplit sep=%q + signed pair", sep), p, [2]string{k2, signed[k2]})
+							break
+						}
+					}
+				}
+			}
+		}
+		add("swapped", [2]string{v, k})
+		add("empty-value", [2]string{k, ""})
+		add("empty-key", [2]string{"", v})
+		add("empty-pair", [2]string{"", ""})
+		add("key-case", [2]string{strings.ToUpper(k), v})
+		add("key-case", [2]string{strings.ToLower(k), v})
+		add("value-case", [2]string{k, strings.ToUpper(v)})
+		add("value-case", [2]string{k, strings.ToLower(v)})
+		add("white-space", [2]string{" " + k, v})
+		add("white-space", [2]string{k + " ", v})
+		add("white-space", [2]string{strings.TrimSpace(k), v})
+		add("white-space", [2]string{k, v + " "})
+		add("white-space", [2]string{k, " " + v})
+		add("white-space", [2]string{k, strings.TrimSpace(v)})
+		if len(v) > 0 {
+			add("value-truncated", [2]string{k, v[:len(v)-1]})
+			add("value-truncated", [2]string{k, v[1:]})
+		}
+		add("value-extended", [2]string{k, v + v})
+		add("value-extended", [2]string{k, v + "x"})
+		if len(k) > 0 {
+			add("key-truncated", [2]string{k[:len(k)-1], v})
+		}
+		add("key-extended", [2]string{k + "x", v})
+		// two signed pairs joined into one (quick tier: each pair with the next one only)
+		for n2, k2 := range keys {
+			if k2 == k || (!thorough && len(keys) > 1 && keys[(n2+len(keys)-1)%len(keys)] != k) {
+				continue
+			}
+			v2 := signed[k2]
+			add("other-pairs-value", [2]string{k, v2})
+			for _, sep2 := range []string{",", ";", "&", " ", "\n", ""} {
+				for _, eq := range []string{"=", ":"} {
+					add("joined-pairs", [2]string{k + eq + v + sep2 + k2, v2})
+					add("joined-pairs", [2]string{k, v + sep2 + k2 + eq + v2})
+				}
+			}
+			add("joined-pairs", [2]string{k + k2, v + v2})
+			add("joined-pairs", [2]string{k + v, k2 + v2})
+			add("joined-pairs", [2]string{k + v + k2, v2})
+		}
+	}
+	return out
+}
+
+// signed annotation sets whose keys / values contain the separators, are empty, or are concatenations of each other
+var metaWorlds = []struct {
+	name   string
+	signed map[string]string
+}{
+	{"eq-in-value", map[string]string{"labels": "tier=gold;approved=no", "build": "101"}},
+	{"eq-in-key", map[string]string{"a=b": "c", "a": "b=c=d", "x": ""}},
+	{"concatenations", map[string]string{"ab": "c", "x:y": "z", "k": "v w", "abc": "d"}},
+	{"empty-key", map[string]string{"": "v", "k": "", "e": "="}},
+	{"two-pairs", map[string]string{"team": "core", "stage": "prod"}},
+	{"case-and-space", map[string]string{"Team": "Core", "env ": " prod", "io.cncf/notary key": "a,b;c|d"}},
+}
+
+// metadataDimension: valid, trusted signatures for exactly the artifact / blob under verification whose signed
+// annotations and the caller's required-metadata maps are drawn from the separator-rich spaces above
+func (w *world) metadataDimension(c *common.Ctx, lvs []levelCase, emit func(envCase, Input, Obs)) {
+	var accepting []levelCase // levels under which a trusted signature is accepted
+	for _, lv := range lvs {
+		if lv.rest("") && !lv.skip {
+			accepting = append(accepting, lv)
+		}
+	}
+	k := 0
+	one := func(label string, signed map[string]string, reqs []reqCase, allLevels func(reqCase) bool) {
+		art, blob := w.art, w.blobDesc
+		art.Annotations, blob.Annotations = signed, signed
+		for nf, f := range []string{common.MediaJWS, common.MediaCOSE} {
+			eo := envCase{"metadata/" + label, f, common.MustSign(common.EnvOpts{Format: f, Chain: w.chain, Target: &art}), "", false}
+			eb := envCase{"metadata/" + label, f, common.MustSign(common.EnvOpts{Format: f, Chain: w.chain, Target: &blob}), "", false}
+			for nr, rc := range reqs {
+				use := accepting
+				if !allLevels(rc) {
+					// quick tier: one level and one envelope format per map, in rotation
+					if !c.Thorough() && nr%2 != nf {
+						continue
+					}
+					k++
+					use = accepting[k%len(accepting) : k%len(accepting)+1]
+				}
+				for _, lv := range use {
+					in, o := runOCI(w, eo, lv, w.art, rc.pairs, nil)
+					emit(eo, in, o)
+					in, o = runOCI(w, eo, lv, w.art, rc.pairs, honest(w.art))
+					emit(eo, in, o)
+					in, o = runBlob(w, eb, lv, w.blob, "", rc.pairs, "bytes")
+					emit(eb, in, o)
+					c.Count("metadata: " + rc.label)
+					c.Count(fmt.Sprintf("metadata: accepted=%v", o.Accepted))
+				}
+			}
+		}
+	}
+	for _, mw := range metaWorlds {
+		one(mw.name, mw.signed, derivedRequired(mw.signed, c.Thorough()), func(rc reqCase) bool {
+			return c.Thorough() || strings.HasPrefix(rc.label, `resplit sep="="`) || strings.HasPrefix(rc.label, "signed-")
+		})
+	}
+	// random worlds over a tiny alphabet: collisions under ANY joined encoding are frequent
+	alphabet := []string{"a", "b", "=", ":", " ", "A"}
+	word := func() string {
+		n := c.Rand.Intn(4)
+		s := ""
+		for i := 0; i < n; i++ {
+			s += alphabet[c.Rand.Intn(len(alphabet))]
+		}
+		return s
+	}
+	n := 150
+	if c.Thorough() {
+		n = 2500
+	}
+	for i := 0; i < n; i++ {
+		signed := map[string]string{}
+		for j := 1 + c.Rand.Intn(3); j > 0; j-- {
+			signed[word()] = word()
+		}
+		var reqs []reqCase
+		keys := sortedKeys(signed)
+		for j := 0; j < 4; j++ {
+			m := map[string]string{}
+			for q := 1 + c.Rand.Intn(2); q > 0; q-- {
+				switch c.Rand.Intn(3) {
+				case 0:
+					m[word()] = word()
+				case 1: // a signed pair
+					k := keys[c.Rand.Intn(len(keys))]
+					m[k] = signed[k]
+				default: // a signed pair re-split under a random separator
+					k := keys[c.Rand.Intn(len(keys))]
+					rs := resplits(k, signed[k], []string{"=", ":", "", " "}[c.Rand.Intn(4)])
+					p := rs[c.Rand.Intn(len(rs))]
+					m[p[0]] = p[1]
+				}
+			}
+			ps := [][2]string{}
+			for _, k := range sortedKeys(m) {
+				ps = append(ps, [2]string{k, m[k]})
+			}
+			reqs = append(reqs, reqCase{"random", ps})
+		}
+		one("random", signed, reqs, func(reqCase) bool { return false })
+	}
+}
+
 // Run crosses the envelope pool with levels, artifacts and required metadata.
 func Run(c *common.Ctx) error {
 	w := newWorld()
@@ -601,20 +1031,26 @@ func Run(c *common.Ctx) error {
 		c.Count(fmt.Sprintf("kind=%s accepted=%v", in.Kind, o.Accepted))
 		c.Count(fmt.Sprintf("integrity=%v", in.IntegrityOk))
 	}
+	// the variants that name a digest in another way are one more digest mismatch for the base cross: they
+	// matter in the registry dimension
+	lean := func(e envCase) bool {
+		return e.label == "mutated" || strings.HasPrefix(e.label, "fresh/same-content-") || strings.HasPrefix(e.label, "fresh/other-content-") ||
+			e.label == "fresh/same-hex-as-sha512" || e.label == "fresh/empty-digest"
+	}
 	// OCI
-	ociEnvs := w.envelopes(c, w.art)
+	ociEnvs := w.envelopes(c, w.art, w.manifest)
 	for _, e := range ociEnvs {
 		for _, lv := range lvs {
 			for _, rn := range reqNames {
 				// full cross for the structured envelopes; mutated ones with two metadata maps
-				if e.label == "mutated" && rn != "none" && rn != "subset" {
+				if lean(e) && rn != "none" && rn != "subset" {
 					continue
 				}
-				in, o := runOCI(w, e, lv, w.art, requiredMaps[rn], false)
+				in, o := runOCI(w, e, lv, w.art, requiredMaps[rn], nil)
 				c.Emit(in, o)
 				count(e, in, o)
 				if e.label != "mutated" {
-					in, o := runOCI(w, e, lv, w.art, requiredMaps[rn], true)
+					in, o := runOCI(w, e, lv, w.art, requiredMaps[rn], honest(w.art))
 					c.Emit(in, o)
 					count(e, in, o)
 					c.Count("via=notation.Verify")
@@ -623,9 +1059,9 @@ func Run(c *common.Ctx) error {
 				c.Count("required=" + rn)
 				// the descriptor PRESENTED for verification may itself be unusual (a Resolve that leaves
 				// fields empty, another size): the signed target must still equal it field by field
-				if rn == "none" || rn == "subset" {
+				if (rn == "none" || rn == "subset") && (e.label == "mutated" || !lean(e)) {
 					for _, av := range artifactVariants(w.art) {
-						in, o := runOCI(w, e, lv, av, requiredMaps[rn], false)
+						in, o := runOCI(w, e, lv, av, requiredMaps[rn], nil)
 						c.Emit(in, o)
 						count(e, in, o)
 						c.Count("artifact-variant")
@@ -634,14 +1070,22 @@ func Run(c *common.Ctx) error {
 			}
 		}
 	}
+	// the registry entry point with repositories that answer something else than the reference names
+	emit := func(e envCase, in Input, o Obs) {
+		c.Emit(in, o)
+		count(e, in, o)
+	}
+	w.registryDimension(c, ociEnvs, lvs, emit)
+	// separator-rich required metadata and signed annotations
+	w.metadataDimension(c, lvs, emit)
 	// blob: the caller states no media type, the signed one, or another one
-	blobEnvs := w.envelopes(c, w.blobDesc)
+	blobEnvs := w.envelopes(c, w.blobDesc, w.blob)
 	otherBlob := []byte("another blob")
 	for _, e := range blobEnvs {
 		for _, lv := range lvs {
 			for _, mt := range []string{"", "application/octet-stream", "text/plain"} {
 				for _, rn := range reqNames {
-					if (e.label == "mutated" || mt == "text/plain") && rn != "none" && rn != "subset" {
+					if (lean(e) || mt == "text/plain") && rn != "none" && rn != "subset" {
 						continue
 					}
 					in, o := runBlob(w, e, lv, w.blob, mt, requiredMaps[rn], "bytes")
@@ -665,6 +1109,8 @@ func Run(c *common.Ctx) error {
 			count(e, in, o)
 		}
 	}
-	c.Note("envelope pool: freshly signed JWS/COSE for the exact target and 9 target variants, COSE payload oddities (alternative spelling, duplicate keys, null, non-JSON, extra field), wrong content type, JWS re-assembled from parts of two valid envelopes, wrong format, random byte mutations; crossed with 9 level/trust cases (incl. customised levels and skip), 6 required-metadata maps, OCI descriptors and blobs (3 caller media types, another blob). Envelope facts come from notation-core-go / encoding/json called directly")
+	c.Note("envelope pool: freshly signed JWS/COSE for the exact target and 19 target variants (incl. the same / another content named by sha384 / sha512 digests, the same hexadecimal text under another algorithm name, an empty digest), COSE payload oddities (alternative spelling, duplicate keys, null, non-JSON, extra field), wrong content type, JWS re-assembled from parts of two valid envelopes, wrong format, random byte mutations; crossed with 9 level/trust cases (incl. customised levels and skip), 6 required-metadata maps, OCI descriptors and blobs (3 caller media types, another blob). Envelope facts come from notation-core-go / encoding/json called directly")
+	c.Note("registry dimension: notation.Verify with 6 references (tag through a caller's Verifier; digest references sha256/sha384/sha512 of the artifact, sha256 of another manifest) x 13 Resolve answers (the artifact / another manifest under each algorithm, the same hexadecimal text under another algorithm's name, the same digest with another size / media type, empty digest, zero descriptor, error) x envelopes signed for each of these answers x levels; 3 spellings of the repository")
+	c.Note("metadata dimension: 6 signed annotation sets with separators / empty keys and values / concatenations, each with the required maps derived from it (re-splitting key<sep>value for 12 separators incl. none, swapping, emptying, case, white space, truncation, extension, two signed pairs joined), plus random sets over a 6-letter alphabet; OCI direct, OCI through notation.Verify, blob; JWS and COSE")
 	return nil
 }
